@@ -77,7 +77,7 @@ Definition ccode (x : cons) : list N :=
    | CAccCb v => [6; nn v; nwatch x; nb (ac_cbcanc x || ccanc x)]
    | CAccRet code => [3; nn code; nwatch x; 0]
    | _ => [2; 0; nwatch x; 0]
-   end) ++ [nn (ww_fired x); match ww_firepc x with None => (if ac_wpark x then 1 else 0) | Some RGate => 1 | Some RDone => 5 end].
+   end) ++ [nn (ww_fired x); if ac_wpark x then 1 else match ww_firepc x with None => 0 | Some RGate => 1 | Some RDone => 5 end].
 
 Definition obs_of (rets : list N) (s : st) (from : nat) : list N :=
   rets ++ [nn (length (gs s))] ++ map gcode (gs s) ++ [nn (target s); nn (terr s)]
@@ -372,7 +372,7 @@ Definition mon1 (m : mst) (e : list N) (p : pobs) : mst * list (nat * nat) :=
                 match e with
                 | [1; _] => match po_rets p with [u] => nz u | _ => false end
                 | [4; _] | [12; _] => dropped_last
-                | [5; _] | [6; _; _] => true
+                | [5; g] | [6; _; g] => N.eqb id g      (* released() of generation g invalidates the value of generation g only *)
                 | [9; g] => N.eqb id g
                 | _ => false
                 end) newcalls) in
